@@ -36,7 +36,7 @@ def main(tier, replay, t0):
         if not camp.module_ok(c.id, x["id"]):
             lost += 1
             continue
-        base = {"wgsl": c.wgsl, "options": x["opt"]}
+        base = {"case_id": c.id, "wgsl": c.wgsl, "options": x["opt"]}
         ps = camp.probe_state(c.id, x["id"], "probe_c04")
         if not ps or not ps["accepted"]:
             d = (ps or {}).get("diags") or [{}]
